@@ -178,6 +178,8 @@ def oracle_c05(st, info, snaps):
                 raise Violation("outside-region-kept", f"entry {idx} outside the addressed region changed from {a} to {b} "
                                 f"({c['rhs_kind']} source, key form {form})", cls="outside-region-kept:" + c["rhs_kind"], form=form)
     kind = c["rhs_kind"]
+    if info.outcome == "raise" and c["tsnap"][2] != "float64" and kind in ("num", "arr"):
+        return  # a value that cannot be cast into an integer / float32 target (NaN, inf, overflow): not defined by the property
     if kind == "num":
         st.cnt("number-fills-region")
         if info.outcome != "ret":
